@@ -9,6 +9,18 @@ _PENDING = "no registered check yet at this commit (model and correspondence und
 NOT_APPLICABLE = {f"C{i:02d}": _PENDING for i in range(1, 21)}
 
 META = {
+    "C06": {
+        "text": ("Lean theorems for every sort specification, stream, size and skip: SortOrder.Compare is a strict total order on "
+                 "matches with distinct hit numbers; the collector (bounded store with back-scan insertion, eviction of the last, "
+                 "lowestMatchOutsideResults shortcut, Final(skip)) returns exactly positions skip..skip+size of the unique sorted "
+                 "permutation of the matches; Total = number of matches; MaxScore is the maximum for non-negative scores; pages "
+                 "tile; under a total sort search-after returns exactly the following page. Model tied to the real TopNCollector "
+                 "by I/O equality on seeded streams on every run."),
+        "design_ref": "DESIGN.md section 4, C06",
+        "note": ("trusted: Lean kernel, Go harness; container/heap (heap store modelled as the same sorted store); float scores "
+                 "modelled by integers (order-isomorphic for non-NaN). SearchBefore is covered by the correspondence only."),
+        "technique": "Lean 4 proof (invariant by induction over the match stream) + I/O-equality correspondence with TopNCollector",
+    },
     "C07": {
         "text": ("Lean theorems for all 64-bit patterns / all int64 bounds: float<->sortable-int round trip, order preservation "
                  "(IEEE total order <-> signed order; Go's < implies term order), bytewise order of prefix-coded terms = numeric "
